@@ -214,7 +214,16 @@ impl DocGen {
         if !self.r.chance(1, 6) {
             return String::new();
         }
+        if self.r.chance(1, 4) {
+            // both directives on one selection, in either order
+            let a = self.one_dir("skip");
+            let b = self.one_dir("include");
+            return if self.r.chance(1, 2) { format!("{a}{b}") } else { format!("{b}{a}") };
+        }
         let which = if self.r.chance(1, 2) { "skip" } else { "include" };
+        self.one_dir(which)
+    }
+    fn one_dir(&mut self, which: &str) -> String {
         match self.r.below(3) {
             0 => format!(" @{which}(if: {})", self.r.chance(1, 2)),
             _ => {
